@@ -14,7 +14,7 @@ EXPLANATION = ('A REAL client of this package (Client or AsyncClient, through th
 STUBS = SIM_STUBS + ['client side: requests.Session / websocket.create_connection / aiohttp session replaced by stubs that open request '
                      'tasks on the server in the same kernel; Client.start_background_task/create_queue/create_event/sleep overridden '
                      'with kernel-backed equivalents; module global asyncio of async_client = shim']
-OUTSIDE = SIM_OUTSIDE + ['bursts above the stated bound', 'more than one client', 'real network, TLS, proxies, cookies']
+OUTSIDE = SIM_OUTSIDE + ['bursts above the stated bound', 'more than 5 sends while the client is not reading (back-pressure condition)', 'more than one client', 'real network, TLS, proxies, cookies']
 NOT_CONSTRAINED = ['the disconnect reason each side reports', 'order between server->client messages and the handler tasks the threaded '
                    'client starts for them (handlers run as background tasks: compared as multisets there)']
 ASSUMPTIONS = ['cooperative scheduling only; virtual integer time']
